@@ -108,6 +108,13 @@ func genFunc(w *World, fi *FuncInfo, mode string) (res *FuncResult) {
 		fv.curPos = fi.Decl.Body.Rbrace
 		fv.finish(end, "end")
 	}
+	if fi.Contract != nil && mode == "full" {
+		for ci, cv := range fi.Contract.CallVerbs {
+			if fv.callVerbHits[ci] == 0 {
+				specFail("callverb %s %q: no call of %s emits this text any more", cv.Callee, cv.Context, cv.Callee)
+			}
+		}
+	}
 	res.Obls = fv.obls
 	res.Facts = fv.facts
 	for _, o := range res.Obls {
@@ -115,6 +122,9 @@ func genFunc(w *World, fi *FuncInfo, mode string) (res *FuncResult) {
 	}
 	res.Unsupported = fv.unsupported
 	res.Abstracted = fv.abstracted
+	for k := range th.cpUsed {
+		fv.usedExterns[k] = true
+	}
 	for k := range fv.usedExterns {
 		res.UsedExterns = append(res.UsedExterns, k)
 	}
@@ -280,6 +290,9 @@ func genLit(w *World, li *FuncInfo, fl *ast.FuncLit) (res *FuncResult) {
 	}
 	res.Unsupported = fv.unsupported
 	res.Abstracted = fv.abstracted
+	for k := range th.cpUsed {
+		fv.usedExterns[k] = true
+	}
 	for k := range fv.usedExterns {
 		res.UsedExterns = append(res.UsedExterns, k)
 	}
